@@ -328,7 +328,9 @@ func c10LoadFaults(chk *fw.Check) (evals int) {
 	url := c10CDPSets[0][0]
 	for _, mode := range []struct{ disk, bg bool }{{false, false}, {true, false}, {false, true}, {true, true}} {
 		disk, bg := mode.disk, mode.bg
+		var by []string
 		count := func(dieAt int) (n int, v1, v2 Verdict, fired string) {
+			by = nil
 			res := seqWorld(func() {
 				w := NewCW(CWOpt{Disk: disk, SigMode: config.SignatureValidationModeVerify, Background: bg})
 				defer os.RemoveAll(w.Dir)
@@ -354,6 +356,18 @@ func c10LoadFaults(chk *fw.Check) (evals int) {
 					}
 				}()
 				vsched.EffectHook = nil
+				// fault gone. First the bystanders - a certificate which names no distribution point at all and one which
+				// names another, healthy one - then the certificate of the faulted set, twice
+				noCDP := world.Leaf(c.p.CA, bi(103), nil, nil)
+				otherURL := "http://crl.test/bystander.crl"
+				w.Net.Serve(otherURL, "good", c.good)
+				other := world.Leaf(c.p.CA, bi(104), []string{otherURL}, nil)
+				for _, l := range []*world.Ident{noCDP, other} {
+					if v := w.Lookup(l, world.Chain(l, c.p.CA, c.p.Root)); v.Err != "" || v.Panic != "" || v.Revoked {
+						by = append(by, fmt.Sprintf("certificate %s (CDP %v): %s %s%s", l.Cert.SerialNumber, l.Cert.CRLDistributionPoints, v, v.Err, v.Panic))
+					}
+					vsched.Drain()
+				}
 				v1 = w.Lookup(c.clean[0], world.Chain(c.clean[0], c.p.CA, c.p.Root))
 				v2 = w.Lookup(c.clean[0], world.Chain(c.clean[0], c.p.CA, c.p.Root))
 				w.Chk.Cleanup()
@@ -368,6 +382,10 @@ func c10LoadFaults(chk *fw.Check) (evals int) {
 		for k := 1; k <= total; k++ {
 			_, v1, v2, kind := count(k)
 			evals++
+			if len(by) > 0 {
+				chk.Violation("C10|lenient-bystander-denied-after-load-fault|"+kind+"|"+be(disk)+fmt.Sprintf(" background=%v", bg),
+					fmt.Sprintf("crl_cdp_strict off, %s backend: the first load of a distribution-point CRL hit an injected %s error (effect point %d of %d); afterwards (fault gone) certificates which have nothing to do with that distribution point and which no CRL lists are not accepted: %v", be(disk), kind, k, total, by), nil)
+			}
 			for i, v := range []Verdict{v1, v2} {
 				switch {
 				case v.Panic != "":
